@@ -132,6 +132,10 @@ def random_component(rng, kind):
     }[kind]
     if kind == "KeydownSkill":
         base["delay"] = rstep(rng, 3000)   # Keydown.interval = delay; 0 would never terminate
+    if kind == "PeriodicHexa":
+        base["delay"] = rtime(rng, False, 3000)   # Periodic.initial_counter = delay must be > 0 (pydantic)
+    if kind == "ConsumableBuffSkill":
+        base["cooldown_duration"] = rstep(rng, 60000)   # Consumable.elapse loops forever on a zero recharge time
     return cls(**base, **kw)
 
 
